@@ -154,6 +154,7 @@ def run(ctx):
             status[key] = 'invalid'
             ctx.fail(d.key, f'get_quadrature({cell}, {n}) returned a malformed rule: {d.why}', {'cell': cell, 'order': n, 'why': d.why})
             continue
+        _alias_fail(ctx, d)
         nadv = max(n, 0)
         ck = (cell, tuple(d.nodes))
         if ck not in evalcache:        # orders are visited from the largest down
@@ -222,6 +223,15 @@ def run(ctx):
             ctx.compile_dyn(['gen/C08_All.v'], timeout=600)
         ctx.prove()
         fut.result()
+
+
+def _alias_fail(ctx, d):
+    if d.aliased is not None:
+        ctx.fail(d.key + ':aliased-result',
+                 f'get_quadrature({d.cell}, {d.n}) requested twice: after the arrays of the first result were overwritten in place '
+                 f'(X[:] = 7, W[:] = -1) the second result differs from the first (the rule is handed out by reference)',
+                 {'cell': d.cell, 'order': d.n,
+                  'sequence': 'X, W = get_quadrature(cell, n); copy; X[...] = 7; W[...] = -1; get_quadrature(cell, n)', **d.aliased})
 
 
 def _report(ctx, d, a, nadv):
@@ -540,6 +550,7 @@ def replay(ctx, data):
     if cell is None or n is None:
         return run(ctx)
     d = D.call(cell, n)
+    _alias_fail(ctx, d)
     if d.kind == 'raises':
         ctx.log(f'get_quadrature({cell}, {n}) now raises {d.exc}: the recorded failure is gone')
         return
